@@ -35,6 +35,13 @@ SCRIPTS = [
     ("cl0", "POST /u HTTP/1.1\r\nContent-Length: 0\r\n\r\nGET /x HTTP/1.1\r\n\r\n"),
     ("expect-cl0", "PUT /u HTTP/1.1\r\nExpect: 100-continue\r\nContent-Length: 0\r\n\r\nGET /x HTTP/1.1\r\n\r\n"),
 ]
+SCRIPTS += [
+    # request header fields that talk about the connection, next to Expect / a body: they change nothing about what the
+    # interim response may do
+    ("expect-conn-close", "POST /u HTTP/1.1\r\nConnection: close\r\nContent-Length: 5\r\nExpect: 100-continue\r\n\r\nhello"),
+    ("conn-close", "GET /c HTTP/1.1\r\nConnection: close\r\n\r\nGET /d HTTP/1.1\r\n\r\n"),
+    ("expect-keep-alive", "PUT /u HTTP/1.1\r\nconnection: keep-alive, Upgrade\r\nExpect: 100-continue\r\nContent-Length: 3\r\n\r\nabc"),
+]
 SCRIPTS_LONG = [
     # a body served from the connection buffer, then a pipelined head that fits the 8 KiB buffer only if the buffer
     # is compacted before it is read (6000 + 3000 > 8192)
